@@ -118,6 +118,10 @@ def _commutative_body(loop: ast.For) -> bool:
     for s in loop.body:
         if isinstance(s, ast.AugAssign) and isinstance(s.op, (ast.Add, ast.Mult)) and isinstance(s.target, ast.Name):
             continue
+        if isinstance(s, ast.Assign) and len(s.targets) == 1 and isinstance(s.targets[0], ast.Name) \
+                and isinstance(s.value, ast.BinOp) and isinstance(s.value.op, (ast.Add, ast.Mult)) and any(
+                    isinstance(o, ast.Name) and o.id == s.targets[0].id for o in (s.value.left, s.value.right)):
+            continue
         if isinstance(s, ast.Expr) and isinstance(s.value, ast.Call) and isinstance(s.value.func, ast.Attribute) \
                 and s.value.func.attr in ('add', 'discard'):
             continue
